@@ -42,14 +42,17 @@ func (wl *WhopLoc) Eval(s *Scope, depth int) Object {
 	return wl
 }
 
+// Continue with the next wrapper after the Current one or with the before,
+// primary, and after daemons if there are no more wrappers. The location is
+// not changed so continuing more than once starts at the same place.
 func (wl *WhopLoc) Continue(s *Scope, args List, depth int) Object {
-	for wl.Current++; wl.Current < len(wl.Method.Combinations); wl.Current++ {
-		wrap := wl.Method.Combinations[wl.Current].Wrap
+	for i := wl.Current + 1; i < len(wl.Method.Combinations); i++ {
+		wrap := wl.Method.Combinations[i].Wrap
 		if wrap == nil {
 			continue
 		}
 		ws := s.NewScope()
-		ws.Let("~whopper-location~", &WhopLoc{Method: wl.Method, Current: wl.Current + 1})
+		ws.Let("~whopper-location~", &WhopLoc{Method: wl.Method, Current: i})
 		if lam, ok := wrap.(*Lambda); ok {
 			lam.Closure = ws
 		}
@@ -58,9 +61,11 @@ func (wl *WhopLoc) Continue(s *Scope, args List, depth int) Object {
 	return wl.Method.InnerCall(s, args, depth)
 }
 
+// HasNext returns true if there is something to continue with. The location
+// is not changed.
 func (wl *WhopLoc) HasNext() bool {
-	for wl.Current++; wl.Current < len(wl.Method.Combinations); wl.Current++ {
-		if wl.Method.Combinations[wl.Current].Wrap != nil {
+	for i := wl.Current + 1; i < len(wl.Method.Combinations); i++ {
+		if wl.Method.Combinations[i].Wrap != nil {
 			return true
 		}
 	}
